@@ -453,6 +453,8 @@ func c38Changes(base c38Cfg) []c38Change {
 	add("TrigramMax", "100000", func(c *c38Cfg) { c.TrigramMax = 100000 })
 	add("LargeFiles", "*.big", func(c *c38Cfg) { c.LargeFiles = []string{"*.big"} })
 	add("LargeFiles", "*.big,!s*", func(c *c38Cfg) { c.LargeFiles = []string{"*.big", "!s*"} })
+	add("LargeFiles", "!s*,*.big", func(c *c38Cfg) { c.LargeFiles = []string{"!s*", "*.big"} })
+	add("LargeFiles", "none", func(c *c38Cfg) { c.LargeFiles = nil })
 	add("DisableCTags", "toggle", func(c *c38Cfg) { c.DisableCTags = !c.DisableCTags })
 	if base.CTagsPath == "" {
 		add("CTagsPath", "U", func(c *c38Cfg) { c.CTagsPath = "U" })
@@ -521,7 +523,11 @@ func c38Bases() map[string]c38Cfg {
 	a3.LanguageMap = "go:scip"
 	a4 := a1.clone()
 	a4.ShardMax = 1500 // several shards: IndexState reads the first, mergeMeta must patch all
-	return map[string]c38Cfg{"A1-noctags": a1, "A2-ctags": a2, "A3-scip": a3, "A4-multishard": a4}
+	// two LargeFiles patterns of opposite polarity that overlap (s2500.big matches both): their order
+	// decides what is indexed, so a reordered list is a content-affecting change
+	a5 := a1.clone()
+	a5.LargeFiles = []string{"*.big", "!s*"}
+	return map[string]c38Cfg{"A1-noctags": a1, "A2-ctags": a2, "A3-scip": a3, "A4-multishard": a4, "A5-largefiles": a5}
 }
 
 // ------------------------------------------------------------------ the driver
@@ -614,7 +620,7 @@ func TestVerif_C38_Probe(t *testing.T) {
 				c1.Apply(&b)
 				c2.Apply(&b)
 				p := c38Probe{base: bn, fields: []string{c1.Field, c2.Field}, vars: []string{c1.Var, c2.Var}, b: b, fault: "none"}
-				minor := bn == "A2-ctags" || bn == "A4-multishard"
+				minor := bn == "A2-ctags" || bn == "A4-multishard" || bn == "A5-largefiles"
 				if minor && (!verifkit.Thorough() || !(isOpt(c1) && isOpt(c2))) {
 					continue
 				}
